@@ -53,6 +53,8 @@ type Engine struct {
 	verbose      bool
 	globalsInit  map[string][]*Term
 	recDepth     int
+	sentinel     map[string]bool
+	sentinelIDs  map[string]int
 	keepScripts  bool
 	orphans      []string
 	extraEvidence map[string]interface{}
@@ -467,6 +469,7 @@ func (E *Engine) VerifyFunction(fn *ssa.Function, fc *FuncContract) {
 			}
 			st := x.newState()
 			x.dry = false
+			x.topFrame = nil
 			E.addOblig(x, st, "engine", "error", FalseT, msg, "", nil)
 		}
 		rep := FuncReport{Name: shortPkg(fnPkgPath(fn)) + "." + relName(fn), Where: x.pos(fn.Pos()), Paths: x.npaths + 1,
@@ -506,8 +509,35 @@ func (E *Engine) VerifyFunction(fn *ssa.Function, fc *FuncContract) {
 		env.vars[n] = v
 	}
 	x.bindGhost(env, fc, st)
+	var ifc *FuncContract
+	if in, ok := fc.Flags["implements"]; ok {
+		ifc = E.contracts[fnPkgPath(fn)+"::"+strings.TrimSpace(in)]
+		if ifc == nil {
+			ifc = E.contracts[strings.TrimSpace(in)]
+		}
+		if ifc == nil {
+			E.configError(fmt.Sprintf("%s:%d: implements %s: no such contract", fc.File, fc.Line, in))
+		} else if len(fn.Params) > 0 {
+			env.vars[E.recvNameFor(ifc)] = fr.params[fn.Params[0].Name()]
+			// positional binding of the interface method's parameter names
+			if pn, ok := ifc.Flags["params"]; ok {
+				for i, n := range strings.Fields(pn) {
+					if i+1 < len(fn.Params) {
+						env.vars[n] = fr.params[fn.Params[i+1].Name()]
+					}
+				}
+			}
+			for _, r := range ifc.Requires {
+				st.assume(x.evalBool(env, r.E))
+			}
+		}
+	}
 	for _, r := range fc.Requires {
 		st.assume(x.evalBool(env, r.E))
+	}
+	for _, r := range fc.Assumes {
+		st.assume(x.evalBool(env, r.E))
+		E.noteAssumption(fmt.Sprintf("ASSUMED (unchecked) at entry of %s: %s: %s", relName(fn), r.Label, r.Src))
 	}
 	fr.entry = st.clone()
 	// vacuity: preconditions satisfiable
@@ -526,6 +556,21 @@ func (E *Engine) VerifyFunction(fn *ssa.Function, fc *FuncContract) {
 		x.bindResults(penv, results, x.tupleOf(results, res))
 		for _, e := range fc.Ensures {
 			E.addPost(x, st2, penv, e)
+		}
+		if ifc != nil && len(fn.Params) > 0 {
+			penv.vars[E.recvNameFor(ifc)] = fr.params[fn.Params[0].Name()]
+			if pn, ok := ifc.Flags["params"]; ok {
+				for i, n := range strings.Fields(pn) {
+					if i+1 < len(fn.Params) {
+						penv.vars[n] = fr.params[fn.Params[i+1].Name()]
+					}
+				}
+			}
+			for _, e := range ifc.Ensures {
+				ie := e
+				ie.Label = "iface." + labelOr(e, "ensures")
+				E.addPost(x, st2, penv, ie)
+			}
 		}
 	}
 	cases := fc.Cases
